@@ -147,7 +147,7 @@ impl Check for C20 {
         "valuations_checked"
     }
     fn rule(&self) -> String {
-        "G6 histories of 4..25 operations over a pool of summaries: new(value), apply_bin_op (three uninterpreted constructors, one of which maps different operands to equal results), apply_ite with a condition summary built from a random boolean expression, coalesce, import_into_guard (boolean summaries), expr_to_guard. Guard terminals (at most 6 per history) are not only 1-bit symbols: ugt/eq/sgte over 2-bit symbols, a 1-bit array read and an ite, i.e. expressions whose children must not be imported into the BDD. After EVERY operation, for ALL 2^t valuations of the terminals (hook H1: verif_entries, verif_eval): exactly one entry guard holds and its value equals the denotational shadow (reference equality; truth value for imported boolean summaries); expr_to_guard is compared with the specification on all valuations and with the reference evaluator on all consistent valuations of the base symbols. distinct_nontrivial = distinct histories with at least one summary of more than one entry.".into()
+        "G6 histories of 4..25 operations over a pool of summaries: new(value), apply_bin_op (three uninterpreted constructors, one of which maps different operands to equal results), apply_ite whose condition is a fresh summary of a random boolean expression or a boolean summary of the pool (several entries, imported or not), coalesce, import_into_guard (boolean summaries), expr_to_guard. Guard terminals (at most 6 per history) are not only 1-bit symbols: ugt/eq/sgte over 2-bit symbols, a 1-bit array read and an ite, i.e. expressions whose children must not be imported into the BDD. After EVERY operation, for ALL 2^t valuations of the terminals (hook H1: verif_entries, verif_eval): exactly one entry guard holds and its value equals the denotational shadow (reference equality; truth value for imported boolean summaries); expr_to_guard is compared with the specification on all valuations and with the reference evaluator on all consistent valuations of the base symbols. distinct_nontrivial = distinct histories with at least one summary of more than one entry.".into()
     }
     fn assumptions(&self) -> Vec<String> {
         vec!["binary operations are uninterpreted constructors, so value equality is reference equality".into()]
@@ -206,16 +206,27 @@ impl Check for C20 {
                     let nonbool: Vec<usize> = pool.iter().enumerate().filter(|(_, t)| !t.boolean).map(|(i, _)| i).collect();
                     let j = *rng.pick(&nonbool);
                     let fals = pool.remove(j);
-                    let c = gen_bool(&mut rng, &mut w, 3);
-                    log.push(format!("apply_ite(new({}), _, _)", r2::render(&w.ctx, c)));
+                    // the condition: a fresh summary of a boolean expression, or a boolean summary of the pool
+                    // (possibly with several entries, possibly already imported, i.e. holding literal true / false)
+                    let bools: Vec<usize> = pool.iter().enumerate().filter(|(_, t)| t.boolean).map(|(i, _)| i).collect();
+                    let (cond, cond_shadow): (ValueSummary<ExprRef>, Vec<ExprRef>) = if !bools.is_empty() && rng.flip() {
+                        let b = pool.remove(*rng.pick(&bools));
+                        log.push(format!("apply_ite(<boolean summary with {} entries>, _, _)", b.vs.len()));
+                        sh.hist("apply_ite_condition_entries", &b.vs.len().min(4).to_string());
+                        (b.vs, b.shadow)
+                    } else {
+                        let c = gen_bool(&mut rng, &mut w, 3);
+                        log.push(format!("apply_ite(new({}), _, _)", r2::render(&w.ctx, c)));
+                        sh.hist("apply_ite_condition_entries", "fresh");
+                        (ValueSummary::new(&mut w.gc, c), vec![c; nval])
+                    };
                     sh.hist("ops", "apply_ite");
-                    let cond = ValueSummary::new(&mut w.gc, c);
-                    let shadow: Vec<ExprRef> = (0..nval).map(|k| if truth(&w.ctx, c, &sigma_of(&w, k)) { tru.shadow[k] } else { fals.shadow[k] }).collect();
+                    let shadow: Vec<ExprRef> = (0..nval).map(|k| if truth(&w.ctx, cond_shadow[k], &sigma_of(&w, k)) { tru.shadow[k] } else { fals.shadow[k] }).collect();
                     let r = util::catch(|| ValueSummary::apply_ite(&mut w.ctx, &mut w.gc, cond, tru.vs, fals.vs));
                     match r {
                         Ok(vs) => pool.push(Tracked { vs, shadow, boolean: false }),
                         Err(pi) => {
-                            fail(sh, format!("panic|apply_ite|{}", pi.loc()), format!("apply_ite panicked at {}: {}\ncondition: {}\nhistory: {}", pi.loc(), util::trunc(&pi.msg, 200), r2::render(&w.ctx, c), log.join("; ")));
+                            fail(sh, format!("panic|apply_ite|{}", pi.loc()), format!("apply_ite panicked at {}: {}\nhistory: {}", pi.loc(), util::trunc(&pi.msg, 200), log.join("; ")));
                             return;
                         }
                     }
